@@ -305,6 +305,11 @@ FIXED = [
     ["x = (c0() and c1()) or c2()", "e(x)"],
     ["xs = array(1, 2, 3)", "xs[e(1)] += e(5)", "e(xs[1])"],
     ["xs = array(1, 2, 3)", "for v in xs:", "    if v == 2:", "        continue", "    e(v)"],
+    # nested subscripts with effectful indices: Python evaluates the target's indices left to right, once
+    ["m = array(array(1, 2), array(3, 4))", "m[e(1)][e(0)] += e(5)", "e(m[1][0])"],
+    ["m = array(array(1, 2), array(3, 4))", "m[e(0)][e(1)] = e(7)", "e(m[0][1])"],
+    ["m = array(array(1, 2), array(3, 4))", "m[(x := x + 1)][(x := x - 1)] += 50", "e(m[1][0])"],
+    ["m = array(array(1, 2), array(3, 4))", "e(m[e(1)][e(0)] + m[e(0)][e(1)])"],
     ["x = g(g(x))", "e(x)"],
     ["a, (b, c) = 1, (2, 3)", "e(a + b + c)"],
     ["a, *b = array(1, 2, 3)", "e(a)"],
